@@ -65,12 +65,14 @@ func c11GenMode(mode string) func(seed uint64, tier string) any {
 					if r.Chance(1, 3) {
 						src = g.Program(r.Range(0, 2)) + src
 					}
-				case r.Chance(1, 6):
+				case r.Chance(1, 4):
 					// method calls on shared prototype objects, built-ins, computed values
 					src = Pick(r, []string{
 						"xs = [3,1,2]; xs.push(4); xs.kh(2) + xs.len()", "[1,2,3].sum() + abs(-2)", "o = {'a':1}; o.keys().len() + o.len()",
 						"&cv = 2d6 + 1; cv + cv.compute()", "func ff(p) { return p * 2 }; ff(3) + ff(4)", "dir([1]).len()", "s = toStr(12) + repr('x'); s",
 						"[1,2,3].shuffle(); 1", "`{2d6} 和 {d20}`", "load('xs') ?? 1", "typeId([]) + typeId({})",
+						"func g1() { 7 }; func f1() { g1() + 1 }; f1() + f1()", "func k1(p) { p * 3 }; k1(2) + k1(k1(1))", "&c1 = 5 + 1; &c2 = c1 * 2; c2 + c1", "func u1() { 1001 }; u1(); u1(); u1()",
+						"func w1(p) { if p > 0 { return w1(p-1) + 1 }; return 0 }; w1(4)",
 					})
 				default:
 					src = g.Program(r.Range(1, 3))
@@ -222,6 +224,8 @@ func c11Exec(raw json.RawMessage, res *RunResult) {
 			res.ProbeN("yield_after_language_write", c)
 		case ds.VerifSiteFormatErr:
 			res.ProbeN("yield_before_language_read", c)
+		case ds.VerifSiteSubReturn:
+			res.ProbeN("yield_at_sub_vm_return", c)
 		}
 	}
 
